@@ -3,6 +3,7 @@ package props
 import (
 	"encoding/json"
 	"fmt"
+	"os"
 
 	"xv/adoc"
 	"xv/refxp"
@@ -72,6 +73,9 @@ func C01(c *run.Check) {
 	if !c.Quick() {
 		n = 5
 	}
+	if v := os.Getenv("C01_N"); v != "" {
+		fmt.Sscan(v, &n)
+	}
 	shapes := c01Shapes(n)
 	singles := mustParse(c01SingleSteps())
 	abs := mustParse(c01Absolute())
@@ -93,30 +97,33 @@ func C01(c *run.Check) {
 	var jobs []job
 	for _, f := range shapes {
 		for _, d := range decos {
+			// quick: the largest shapes only undecorated and with namespaces (D3)
+			if c.Quick() && treeSize(f) == n && d != adoc.D0 && d != adoc.D3 {
+				continue
+			}
 			jobs = append(jobs, job{f, d})
 		}
 	}
-	var docs int64
-	twoMaxNodes := 4
-	run.ParallelW(len(jobs), func(w, i int) {
-		if (!triage && c.Violations() > 0) || c.TimeUp() {
-			return
+	gen := func(i int) *adoc.Doc { return adoc.Instantiate(jobs[i].f, jobs[i].deco) }
+	r.runGrid(len(jobs), gen, append(append([]refExpr{}, singles...), abs...), nil)
+	// two-step paths on the documents with at most twoMax nodes
+	twoMax := 3
+	if !c.Quick() {
+		twoMax = 4
+	}
+	var small []int
+	for i, j := range jobs {
+		if treeSize(j.f) <= twoMax {
+			small = append(small, i)
 		}
-		d := adoc.Instantiate(jobs[i].f, jobs[i].deco)
-		r.runDoc(w, d, singles, nil)
-		r.runDoc(w, d, abs, nil)
-		if len(jobs[i].f) > 0 && treeSize(jobs[i].f) <= twoMaxNodes {
-			r.runDoc(w, d, two, nil)
-		}
-		c.States.Add(int64(len(d.Nodes)))
-		if i%1777 == 5 {
-			c.Sample(map[string]string{"doc": d.String(), "context": "every node", "expr": singles[(i/7)%len(singles)].Text})
-		}
-		_ = docs
-	})
+	}
+	r.runGrid(len(small), func(i int) *adoc.Doc { return gen(small[i]) }, two, nil)
+	for i := 5; i < len(jobs); i += 1777 {
+		c.Sample(map[string]string{"doc": gen(i).String(), "context": "every node", "expr": singles[(i/7)%len(singles)].Text})
+	}
+	c.Set("two_step_documents", len(small))
 	c.Set("documents", len(jobs))
 	c.Set("shape_bound_nodes", n)
-	c.Set("context_nodes", c.States.Load())
 	c.Assume("reference evaluator refxp (validated by its self-test); namespace/attribute order within one element is taken from the implementation; name tests on the namespace axis are not compared")
 }
 
